@@ -95,7 +95,9 @@ def WInv (q : List Cb) (k : Nat) (w : Waiter) : Prop :=
   (w.out ≠ .none → w.started = true ∧ w.awaiting = false) ∧
   (w.awaiting = true → w.started = true) ∧
   (w.expired = true → w.cancelReq = false → w.out = .none ∨ w.out = .timeout) ∧
-  w.out ≠ .invalidState
+  w.out ≠ .invalidState ∧
+  (w.out ≠ .none → w.fut ≠ .pending) ∧
+  (w.cancelReq = true → w.fut ≠ .pending)
 
 structure Inv (s : State) : Prop where
   w : ∀ k w, s.ws[k]? = some w → WInv s.cbq k w
@@ -297,7 +299,7 @@ theorem inv_cancelFut {s : State} (hi : Inv s) (k : Nat) : Inv (step s (.cancelF
     simp only
     exact inv_cancel_like hi hk (fun x => x) (fun _ => rfl) (fun _ _ _ _ h => h)
 
-theorem inv_sendFails {s : State} (hi : Inv s) (k : Nat) : Inv (step s (.sendFails k)) := by
+theorem inv_sendFails {s : State} (hi : Inv s) (k : Nat) (c : Bool) : Inv (step s (.sendFails k c)) := by
   simp only [step]
   cases hk : s.ws[k]? with
   | none => exact hi
@@ -306,10 +308,11 @@ theorem inv_sendFails {s : State} (hi : Inv s) (k : Nat) : Inv (step s (.sendFai
     by_cases hc : (decide (w.kind = .exec) && !w.started) = true
     · simp only [hc, if_true]
       simp only [Bool.and_eq_true, Bool.not_eq_true', decide_eq_true_eq] at hc
-      apply inv_cancel_like hi hk (fun x => { x with started := true, out := .sendError }) (fun _ => rfl)
+      apply inv_cancel_like hi hk
+        (fun x => { x with started := true, out := if c then .cancelled else .sendError }) (fun _ => rfl)
       intro q x hx hsf h
       unfold WInv SameFlags at *
-      grind
+      cases c <;> simp only [Bool.false_eq_true, if_false, if_true] <;> grind
     · simp only [hc]; exact hi
 
 theorem wakeW_remove {j k : Nat} {w : Waiter} (h : Cb.remove j ∈ (wakeW k w).2) :
@@ -392,7 +395,7 @@ theorem inv_step {s : State} (hi : Inv s) (op : Op) : Inv (step s op) := by
   | timeout k => exact inv_timeout hi k
   | cancelTask k => exact inv_cancelTask hi k
   | cancelFut k => exact inv_cancelFut hi k
-  | sendFails k => exact inv_sendFails hi k
+  | sendFails k c => exact inv_sendFails hi k c
   | cb => exact inv_cb hi
 
 theorem inv_init : Inv {} := ⟨by simp, by simp, rfl⟩
@@ -499,7 +502,7 @@ theorem step_get {s : State} (op : Op) {k : Nat} {w : Waiter} (hk : s.ws[k]? = s
     | some wj =>
       simp only [State.put]
       exact viaSet j wj _ hj (quiet_cancelW j wj) (by simp)
-  | sendFails j =>
+  | sendFails j c =>
     simp only [step]
     cases hj : s.ws[j]? with
     | none => exact same (by simp)
@@ -578,7 +581,7 @@ theorem step_new {s : State} (op : Op) {k : Nat} {w' : Waiter} (hn : s.ws[k]? = 
     cases hj : s.ws[j]? with
     | none => simp [hj, hn] at hk
     | some wj => simp [hj, State.put, hlen] at hk
-  | sendFails j =>
+  | sendFails j c =>
     simp only [step] at hk
     cases hj : s.ws[j]? with
     | none => simp [hj, hn] at hk
